@@ -181,7 +181,9 @@ def work(chunk):
                     c2 = dict(cfg)
                     c2['schedule'] = [list(s) for s in ex.schedule]
                     cfgs[tid] = c2
-                    traces.append(tlc.make_trace(tid, pi, lines, amb=P['amb'], faulty=bool(cfg.get('faulty')), overlap=cfg.get('overlap', False)))
+                    traces.append(tlc.make_trace(tid, pi, lines, amb=P['amb'], faulty=bool(cfg.get('faulty')),
+                                                 evfaulty=bool(((cfg.get('collab') or {}).get('ev') or {}).get('raise_at')),
+                                                 overlap=cfg.get('overlap', False)))
                     nexec += 1
             except Exception:  # noqa: BLE001 - a harness crash on one program must not hide the rest
                 errors.append('%s cfg %d: %s' % (name, ci, traceback.format_exc()[-1500:]))
@@ -216,8 +218,10 @@ def base_cfgs(seed, nrand, eager_limit, **extra):
         cfgs.append(dict(policy=['random', seed * 100003 + i, [0.5, 0.7, 0.9, 0.97][i % 4]], **extra))
     # collaborators (event manager, artifact store) that really suspend: their completions are scheduled too
     modes = [{'ev': {'mode': 'yield'}}, {'save': {'mode': 'yield'}}, {'ev': {'mode': 'yield'}, 'save': {'mode': 'yield'}}]
+    # (every other one behind a first manager that only cares about pipeline-level events)
     for i in range(max(1, nrand // 2)):
-        cfgs.append(dict(policy=['random', seed * 100003 + 500 + i, [0.5, 0.8, 0.95][i % 3]], collab=modes[i % 3], **extra))
+        col = dict(modes[i % 3], **({'evp': {}} if i % 2 == 0 else {}))
+        cfgs.append(dict(policy=['random', seed * 100003 + 500 + i, [0.5, 0.8, 0.95][i % 3]], collab=col, **extra))
     # a collaborator that raises (the k-th event callback / save fails), next to a second event manager that suspends:
     # the reference value is unknown then (faulty=True: only the clauses that need no reference semantics apply)
     for i, k in enumerate((2, 3, 5, 8)[: max(1, nrand // 4)]):
